@@ -281,6 +281,9 @@ def make_program(rng, nfuncs=8, only=None):
         # the largest allocation the 16-bit form of UWOP_ALLOC_LARGE can state, with nothing pushed before it: with the
         # return address the frame is exactly 65536 words
         funcs.append(make_func(rng, "f%d" % len(funcs), "large", force=dict(npush=0, alloc=rng.choice([0x7fff8, 0x7fff8, 0x7fff0]))))
+        # all eight non-volatile registers pushed: the epilog `pop` x 8 + ret is 13 bytes long - longer than any limit
+        # counted in INSTRUCTIONS that someone might apply to bytes (seeded change C03-15)
+        funcs.append(make_func(rng, "f%d" % len(funcs), "push", force=dict(npush=8, alloc=0x28)))
         # ... and one whose allocation needs the 32-bit form and does not fit 16 bits when divided by 8, with pushes only
         # (the cacheable pop rule cannot hold it: the step must be interpreted; seeded change C03-7 truncated it)
         funcs.append(make_func(rng, "f%d" % len(funcs), "large", force=dict(npush=rng.range(0, 3), alloc=rng.choice([0x80000, 0x80040, 0x100010]))))
